@@ -1,4 +1,4 @@
-\* the two proposed repairs: everything holds without exemption
+\* with the repair of the rustls handshake flush as well: everything holds without exemption
 CONSTANTS
   Backends = {"native", "rustls"}
   Shapes = {"t13", "t12"}
@@ -12,7 +12,7 @@ CONSTANTS
   PendingIsWouldBlock = TRUE
   MidResumes = TRUE
   FinalFlush = TRUE
-  FixNativeClose = TRUE
+  CloseFlushes = TRUE
   FixRustlsHsFlush = TRUE
 SPECIFICATION FairSpec
 INVARIANTS TypeOK NoDeadlockStrict NoFailure InOrderExactlyOnce CleanCloseStrict
